@@ -146,13 +146,13 @@ Spec == Init /\ [][Next]_vars
 
 (* ------------- invariants ------------------------------------------ *)
 \* the model itself stays inside the domain of the reference definitions
-GroupInv == GroupOK(grp, N)
+GroupInv == qry = NoQuery => GroupOK(grp, N)
 
 \* shortcut routes of the implementation give the reference value
 ImplMatchesRef == qry.m # "none" => qry.impl = qry.ref
 
 \* bounds: 0 <= S(A) <= |A|, S of everything = N - rank, I >= 0, 0 <= E_N <= min(|A|, |B|), E_N <= I/2
-Bounds ==
+L_Bounds ==
   /\ \A A \in Subsets : 0 <= Ent(grp, A) /\ Ent(grp, A) <= Cardinality(A)
   /\ Ent(grp, {}) = 0 /\ Ent(grp, Q) = N - Rank(grp)
   /\ \A ab \in DisjPairs :
@@ -163,12 +163,12 @@ Bounds ==
         /\ 2 * LogNeg(grp, ab[1], ab[2]) <= MutInf(grp, ab[1], ab[2])
 
 \* symmetry of the two-party quantities (the formula for E_N is not symmetric in form)
-Symmetry ==
+L_Symmetry ==
   \A ab \in DisjPairs : /\ LogNeg(grp, ab[1], ab[2]) = LogNeg(grp, ab[2], ab[1])
                         /\ MutInf(grp, ab[1], ab[2]) = MutInf(grp, ab[2], ab[1])
 
 \* sub-additivity, Araki-Lieb, and (HeavyLaws) strong sub-additivity
-SubAdditivity ==
+L_SubAdditivity ==
   /\ \A ab \in DisjPairs :
         /\ Ent(grp, ab[1] \cup ab[2]) <= Ent(grp, ab[1]) + Ent(grp, ab[2])
         /\ Abs(Ent(grp, ab[1]) - Ent(grp, ab[2])) <= Ent(grp, ab[1] \cup ab[2])
@@ -177,7 +177,7 @@ SubAdditivity ==
            Ent(grp, A \cup B \cup C) + Ent(grp, B) <= Ent(grp, A \cup B) + Ent(grp, B \cup C)
 
 \* pure-state identities: S(A) = S(B), I = 2S, E_N = S (flat Schmidt spectrum), separable <=> S = 0
-PureIdentities ==
+L_PureIdentities ==
   IsPure(grp, N) =>
     \A A \in Proper :
        /\ Ent(grp, A) = Ent(grp, Compl(A))
@@ -190,7 +190,7 @@ Measures(G) ==
   [ab \in DisjPairs |-> <<Ent(G, ab[1]), MutInf(G, ab[1], ab[2]), LogNeg(G, ab[1], ab[2])>>]
 
 \* invariance under local Cliffords, and under entangling gates that act inside one party
-LocalInvariance ==
+L_LocalInvariance ==
   /\ \A q \in Q : /\ Measures(ApplyGate(grp, "H", <<q>>)) = Measures(grp)
                   /\ Measures(ApplyGate(grp, "S", <<q>>)) = Measures(grp)
   /\ \A c, t \in Q : c # t =>
@@ -202,7 +202,7 @@ LocalInvariance ==
              /\ LogNeg(G2, ab[1], ab[2]) = LogNeg(grp, ab[1], ab[2])
 
 \* covariance under relabelling of the subsystems
-RelabelCovariance ==
+L_RelabelCovariance ==
   \A p \in (IF HeavyLaws THEN Perms ELSE {x \in Perms : \E i \in Q : x[i] # i /\ x[x[i]] = i /\ \A j \in Q \ {i, x[i]} : x[j] = j}) :
     LET G2 == Relabel(grp, p) IN
     \A ab \in DisjPairs :
@@ -219,7 +219,7 @@ RatEq(a, b)  == a[1] * b[2] = b[1] * a[2]
 RatLeq(a, b) == a[1] * b[2] <= b[1] * a[2]
 
 \* fidelity: symmetric, in [0, 1], 1 iff equal, invariant under a common unitary
-FidelityLaws ==
+L_FidelityLaws ==
   \A T \in Refs :
     LET f == FidSq(grp, T) IN
     /\ RatEq(f, FidSq(T, grp))
@@ -232,7 +232,7 @@ FidelityLaws ==
     /\ (IsPure(grp, N) /\ IsPure(T, N) /\ ~Clash(grp, T)) => RatEq(f, <<Cardinality(grp \cap T), 2^N>>)
 
 \* trace distance on simultaneously diagonal pairs: symmetric, 0 iff equal, Fuchs - van de Graaf
-TraceDistanceLaws ==
+L_TraceDistanceLaws ==
   \A T \in Refs : AllCommute(grp, T) =>
     LET d == TraceDistCommuting(grp, T)
         f == FidSq(grp, T) IN
@@ -249,7 +249,7 @@ TestPaulis == {[s |-> 0, l |-> OneL(N, q, a)] : q \in Q, a \in {1, 3}}
 
 \* measurement: probabilities add up, the post-measurement state is a state, it contains the outcome,
 \* repeating the measurement repeats the outcome, a certain outcome does not disturb
-MeasurementLaws ==
+L_MeasurementLaws ==
   \A P0 \in TestPaulis :
     /\ MeasProb2(grp, P0) + MeasProb2(grp, Neg(P0)) = 2
     /\ \A P \in {P0, Neg(P0)} : MeasProb2(grp, P) > 0 =>
@@ -260,7 +260,7 @@ MeasurementLaws ==
          /\ (MeasProb2(grp, P) = 2) => G2 = grp
 
 \* channels: outputs are states; a unital channel does not lower the entropy; reset leaves a pure qubit
-ChannelLaws ==
+L_ChannelLaws ==
   \A q \in Q :
     /\ GroupOK(Dephase(grp, ZOn(N, q)), N)
     /\ Ent(Dephase(grp, ZOn(N, q)), Q) >= Ent(grp, Q)
@@ -270,9 +270,37 @@ ChannelLaws ==
 
 \* the Pauli vector determines the state: it has |G| non-zero entries and partial transposition on
 \* everything only flips signs
-PauliVectorLaws ==
+L_PauliVectorLaws ==
   LET pv == PVec(grp, N) IN
   /\ Cardinality({k \in 1..(4^N) : pv[k] # 0}) = Cardinality(grp)
   /\ pv[1] = 1
   /\ \A A \in Subsets : \A k \in 1..(4^N) : Abs(PVecPT(grp, N, A)[k]) = Abs(pv[k])
+
+\* the shortcut routes agree with the reference for every subsystem choice (same content as the query
+\* actions, as a state invariant: used where the query states would be too many)
+L_ImplRoutes ==
+  /\ N >= 2 => \A a, b \in Q : a # b => ImplTwoQubit(grp, a, b) = LogNeg(grp, {a}, {b})
+  /\ \A A \in Proper : ImplMutinfDop(grp, A) = MutInf(grp, A, Compl(A))
+  /\ IsPure(grp, N) =>
+       /\ \A A \in Subsets \ {{}} : /\ ImplEntropySubsys(grp, A) = Ent(grp, A)
+                                    /\ ImplSchmidtGap(grp, A) = SchmidtGap(grp, A)
+       /\ \A A \in Proper : /\ ImplMutinfKet(grp, A) = MutInf(grp, A, Compl(A))
+                            /\ ImplLognegKet(grp, A) = LogNeg(grp, A, Compl(A))
+       /\ \A ab \in DisjPairs : /\ ImplMutinfSubsys(grp, ab[1], ab[2]) = MutInf(grp, ab[1], ab[2])
+                                /\ ImplLognegSubsys(grp, ab[1], ab[2]) = LogNeg(grp, ab[1], ab[2])
+
+(* the laws are evaluated once per register state (not again on the query states) *)
+AtState == qry = NoQuery
+Bounds == AtState => L_Bounds
+Symmetry == AtState => L_Symmetry
+SubAdditivity == AtState => L_SubAdditivity
+PureIdentities == AtState => L_PureIdentities
+LocalInvariance == AtState => L_LocalInvariance
+RelabelCovariance == AtState => L_RelabelCovariance
+FidelityLaws == AtState => L_FidelityLaws
+TraceDistanceLaws == AtState => L_TraceDistanceLaws
+MeasurementLaws == AtState => L_MeasurementLaws
+ChannelLaws == AtState => L_ChannelLaws
+PauliVectorLaws == AtState => L_PauliVectorLaws
+ImplRoutes == AtState => L_ImplRoutes
 =============================================================================
